@@ -61,7 +61,7 @@ def run_seq(w, gi, idxs):
                 w.ops[k][1](env, s)
             except (ValueError, HF.Skip, sa_exc.InvalidRequestError):
                 return dict(status="inapplicable")
-        unsat = w.unsat(env, s)
+        unsat = w.unsat(env, s) or HF.generic_unsat(env, s)
         HF._REC["log"] = []
         HF._REC["on"] = True
         err = None
